@@ -34,16 +34,21 @@ def run(chk):
     # random phases with millisecond offsets between the two nodes' ticks
     for _ in range(400 if thorough else 40):
         ia, ib = rng.choice([5, 5, 7, 10]), rng.choice([5, 6, 10])
-        lines = ["reset ia=%d ib=%d skew=%d seed=%d" % (ia, ib, rng.choice([0, 0, 1, 500, 3000]), rng.randrange(50))]
+        lines = ["reset ia=%d ib=%d skew=%d seed=%d hpow=%d" % (ia, ib, rng.choice([0, 0, 1, 500, 3000]), rng.randrange(50), rng.choice([0, 16, 16]))]
         for _ in range(rng.randint(3, 14)):
             x = rng.random()
             if x < 0.45:
                 lines.append("adv ms=%d" % rng.choice([1, 999, 1000, 2500, 4999, 5000, 5001, 10000]))
-            elif x < 0.9:
+            elif x < 0.85:
                 lines.append("tick n=%s" % rng.choice("ab"))
-            else:
+            elif x < 0.93:
                 lines.append("send from=%s" % rng.choice("ab"))
+            else:
+                lines.append("intrude n=%s k=%d" % (rng.choice("ab"), rng.randrange(100)))
         beh.append(lines)
+    # a refused third-party handshake under the peer's id, inside the rotation interval: nothing may move
+    for n in "ab":
+        beh.insert(0, ["reset ia=3600 ib=3600 skew=0 seed=7 hpow=16", "send from=a", "intrude n=%s k=1" % n, "send from=a", "send from=b", "intrude n=%s k=2" % n, "tick n=a", "tick n=b", "send from=b"])
     if not thorough:
         beh = beh[:40] + rng.sample(beh[40:], min(len(beh) - 40, 110)) if len(beh) > 150 else beh
     execute(chk, beh, "tlc-schedules+random-phases")
